@@ -26,6 +26,9 @@ func c06Scenarios(tier string) []*hist.Scenario {
 	}
 	for _, f := range fams {
 		for _, al := range pairs(f.ops) {
+			if tier == "quick" && len(al) == 2 && f.name != "arr" && f.name != "obj" {
+				continue
+			}
 			k, y := 2, 3
 			if tier == "thorough" {
 				k, y = 3, 4
